@@ -75,6 +75,39 @@ fn resolve_and_link(
         ) => {
             if let InformationObjectFields::CustomSyntax(c) = &fields {
                 if let Some(id) = c.first().and_then(SyntaxApplication::as_str_or_none) {
+                    // an object defined by reference to another object: a chain of such
+                    // references that is longer than the number of definitions runs in a circle
+                    let mut referenced = id;
+                    let mut hops = 0;
+                    while let Some(ToplevelDefinition::Object(ToplevelInformationDefinition {
+                        value:
+                            ASN1Information::Object(InformationObject {
+                                fields: InformationObjectFields::CustomSyntax(next),
+                                ..
+                            }),
+                        ..
+                    })) = tlds.get(referenced)
+                    {
+                        match next.first().and_then(SyntaxApplication::as_str_or_none) {
+                            Some(next_id)
+                                if next.len() == 1
+                                    && matches!(
+                                        tlds.get(next_id),
+                                        Some(ToplevelDefinition::Object(_))
+                                    ) =>
+                            {
+                                if hops > tlds.len() {
+                                    return Err(GrammarError::new(
+                                        &format!("Circular information object reference: {id}"),
+                                        GrammarErrorType::LinkerError,
+                                    ));
+                                }
+                                hops += 1;
+                                referenced = next_id;
+                            }
+                            _ => break,
+                        }
+                    }
                     if let Some(ToplevelDefinition::Object(tld)) = tlds.get(id) {
                         let mut tld_clone = tld.clone().resolve_class_reference(tlds);
                         tld_clone.collect_supertypes(tlds)?;
@@ -277,6 +310,16 @@ impl ObjectSet {
         &mut self,
         tlds: &BTreeMap<String, ToplevelDefinition>,
     ) -> Result<(), GrammarError> {
+        self.resolve_object_set_references_within(tlds, tlds.len())
+    }
+
+    /// Replaces references to object sets by their members, `rounds` times at most: sets
+    /// that refer to each other in a circle would be unfolded forever.
+    fn resolve_object_set_references_within(
+        &mut self,
+        tlds: &BTreeMap<String, ToplevelDefinition>,
+        rounds: usize,
+    ) -> Result<(), GrammarError> {
         let mut flattened_members = Vec::new();
         let mut needs_recursing = false;
         'resolving_references: for mut value in std::mem::take(&mut self.values) {
@@ -307,8 +350,13 @@ impl ObjectSet {
             flattened_members.push(value)
         }
         self.values = flattened_members;
-        if needs_recursing {
-            self.resolve_object_set_references(tlds)
+        if needs_recursing && rounds == 0 {
+            Err(GrammarError::new(
+                "Circular reference between object sets.",
+                GrammarErrorType::LinkerError,
+            ))
+        } else if needs_recursing {
+            self.resolve_object_set_references_within(tlds, rounds - 1)
         } else {
             Ok(())
         }
